@@ -94,7 +94,11 @@ def correspond(ctx, n=None):
         model = ctx.driver("pipeline", lines, timeout=3600)
         for i, (cap, kl, argv, legacy, variant, desc) in enumerate(cases):
             want = model[3 * i + 2]
+            del pipeline_corr.DEFLATE_SEEN[:]
             r = tool.run(cap, kl, argv, infile_name="in.pcap" if legacy else "in.pcapng")
+            if pipeline_corr.DEFLATE_SEEN:
+                ctx.hist("file-skipped", "DEFLATE negotiated by a damaged ServerHello (record compression is not modelled)")
+                continue
             if r.crashed:
                 got = "abort:" + (r.exc or "?")
             else:
